@@ -318,6 +318,9 @@ namespace occa {
       ^ modeDevice->kernelHash(kernelProps)
       ^ kernelHeaderHash(kernelProps)
       ^ sourceHash
+      // Every property the build may read, hashed together with its name:
+      // the terms above combine bare values, which can cancel or swap
+      ^ occa::hash(kernelProps)
     );
 
     kernelHash = applyDependencyHash(kernelHash);
